@@ -9,6 +9,7 @@ python3-vt -c "
 import sys; sys.path.insert(0, '.')
 from mirsmt.driver import dump_mir
 p, h, dt = dump_mir(); print('MIR dump', p, h, '%.1fs' % dt)
+p, h, dt = dump_mir('zarr'); print('MIR dump (zarr)', p, h, '%.1fs' % dt)
 "
 python3-vt -c "
 import sys; sys.path.insert(0, '.')
